@@ -93,6 +93,7 @@ func (f *FileOutputHandler) Write(
 					Hash:      fileHash,
 					SizeBytes: fileInfo.Size(),
 				},
+				IsExecutable: fileInfo.Mode()&0111 != 0,
 			},
 		},
 	}, nil
@@ -110,7 +111,7 @@ func (f *FileOutputHandler) Load(
 	// If the local hash is the same as the cached one we don't need to
 	// load the file from the CAS
 	if err == nil && existingHash == output.GetFile().GetDigest().GetHash() {
-		return nil
+		return setExecutable(absOutputPath, output.GetFile().GetIsExecutable())
 	}
 
 	progress := tracker
@@ -154,5 +155,22 @@ func (f *FileOutputHandler) Load(
 		return err
 	}
 
-	return nil
+	return setExecutable(absOutputPath, output.GetFile().GetIsExecutable())
+}
+
+// setExecutable makes the executable permission of the file at path match the cached flag.
+// The mode is only touched when it differs, using the same modes as directory outputs.
+func setExecutable(path string, isExecutable bool) error {
+	info, err := os.Stat(path)
+	if err != nil {
+		return err
+	}
+	if (info.Mode()&0111 != 0) == isExecutable {
+		return nil
+	}
+	mode := os.FileMode(0644)
+	if isExecutable {
+		mode = 0755
+	}
+	return os.Chmod(path, mode)
 }
